@@ -42,6 +42,7 @@ mod exec_inline;
 mod orset;
 mod stream_glue;
 mod active_expiry;
+mod wal_modes;
 use std::panic;
 
 pub struct Found {
@@ -121,6 +122,7 @@ fn main() {
         "orset" => orset::search(&pid, &oid, seed),
         "stream_glue" => stream_glue::search(&pid, &oid, seed),
         "active_expiry" => active_expiry::search(&pid, &oid, seed),
+        "wal_modes" => wal_modes::search(&pid, &oid, seed),
         _ => None,
     };
     match res {
